@@ -164,5 +164,21 @@ PLANS = {
              'Non-trivial = a probe hosted by a behaviour of an external transition; distinct by (spec, policy, phase, host, answer).',
         assumptions=['reference model R-policy restates active_state_switching_policies.hpp independently'],
     ),
+    'C12': dict(
+        oracle='C12', level='fault_enumeration', mode='fault_enum', keep_cases=6, post='c12_uninit',
+        profiles=[('throw', 5)], curated=[], configs=ALLCFG,
+        cp=dict(kinds=['P', 'P', 'P', 'Q', 'X'], scripts={'p': ['r', 'Q']}, cont_scripts={'p': ['r', 'Q'], 't': True}, max_prefix=8, max_cont=5),
+        examples=(60, 500), floor=(150, 1500),
+        rule='Fault enumeration: for each generated (machine, prefix history, step) the step is first run fault-free to count its '
+             'callback positions (guards, every exit and entry of a cascade, actions, completion transitions, behaviours run for '
+             'queued occurrences, all nesting levels); then EVERY position is used as the throw point on a fresh machine with the '
+             'same prefix, followed by a generated continuation (which may throw again). Oracle: nothing escapes; exactly one '
+             'exception_caught with the occurrence being processed; trace before the throw == fault-free run; no no_transition for '
+             'the event when the outermost machine caught it; faulted step, configuration afterwards and the whole continuation == '
+             'model. Non-trivial = a fault inside a taken transition (not a guard) followed by >= 1 continuation step; distinct by '
+             '(spec, configuration, step, position).',
+        assumptions=['machines are not configured no_exception_thrown', 'only process_event/execute-queued paths are claimed (not start/stop)',
+                     'uninitialised-data clause: see coverage.uninit (zero/pattern differential and valgrind sample)'],
+    ),
 }
 NOT_YET = {}
